@@ -3,7 +3,7 @@ CONSTANTS
   Keys <- KeysAAB
   Vals <- Vals12
   MaxList = 2
-  MaxEnt = 3
+  MaxEnt = 2
 INIT Init
 NEXT Next
 VIEW View
